@@ -13,6 +13,7 @@ import (
 	"net"
 	"reflect"
 	"regexp"
+	"slices"
 	"strconv"
 	"strings"
 	"sync"
@@ -613,11 +614,12 @@ func (req *Request) getSubBackends(allBackendsRequested bool, nodeBackends []str
 // Like the sub requests sent to the partner nodes it asks for the first limit + offset rows and for the raw
 // stats data, offset and limit are applied to the merged result.
 func (req *Request) buildDistributedLocalRequest() *Request {
+	sortNames, sortColumns := req.distributedSortColumns()
 	localReq := &Request{
 		lmd:                 req.lmd,
 		Table:               req.Table,
-		Columns:             req.Columns,
-		RequestColumns:      req.RequestColumns,
+		Columns:             append(append([]string{}, req.Columns...), sortNames...),
+		RequestColumns:      append(append([]*Column{}, req.RequestColumns...), sortColumns...),
 		Filter:              req.Filter,
 		FilterStr:           req.FilterStr,
 		NumFilter:           req.NumFilter,
@@ -644,6 +646,32 @@ func (req *Request) buildDistributedLocalRequest() *Request {
 	return localReq
 }
 
+// distributedSortColumns returns the sort columns which are not part of the requested columns. The merged rows
+// of a distributed request are sorted again, so every node has to send the values of these columns behind the
+// requested ones, PostProcessing removes them again. The index of each sort field is set to the position of its
+// column in these rows.
+func (req *Request) distributedSortColumns() (names []string, columns []*Column) {
+	if len(req.Stats) != 0 {
+		// the rows of a stats result are sorted by their group columns
+		return nil, nil
+	}
+	for _, field := range req.Sort {
+		field.Index = slices.Index(req.RequestColumns, field.Column)
+		if field.Index != -1 {
+			continue
+		}
+		field.Index = slices.Index(columns, field.Column)
+		if field.Index == -1 {
+			field.Index = len(columns)
+			names = append(names, field.Name)
+			columns = append(columns, field.Column)
+		}
+		field.Index += len(req.RequestColumns)
+	}
+
+	return names, columns
+}
+
 func (req *Request) buildDistributedRequestData(subBackends []string) (requestData map[string]interface{}) {
 	requestData = make(map[string]interface{})
 	if req.Table != TableNone {
@@ -661,14 +689,18 @@ func (req *Request) buildDistributedRequestData(subBackends []string) (requestDa
 
 	// Columns need to be defined or else response will add them
 	isStatsRequest := len(req.Stats) != 0
+	columns := make([]string, 0, len(req.RequestColumns)+len(req.Sort))
 	if len(req.Columns) != 0 {
-		requestData["columns"] = req.Columns
+		columns = append(columns, req.Columns...)
 	} else if !isStatsRequest {
 		// no columns header means all columns of the table
-		columns := make([]string, 0, len(req.RequestColumns))
 		for _, col := range req.RequestColumns {
 			columns = append(columns, col.Name)
 		}
+	}
+	sortNames, _ := req.distributedSortColumns()
+	columns = append(columns, sortNames...)
+	if len(columns) != 0 {
 		requestData["columns"] = columns
 	}
 
